@@ -475,3 +475,36 @@ PROPS["C06"] = {
     "level_text": "Bounded symbolic model checking of Replace/ReplaceWithMask against the coverage computed from naive occurrence enumeration, over the same symbolic alphabet as C05; totality (no panic) and exact rewriting are decided for every pattern set and text within the bound.",
     "level_note": "Trusted: go/ssa, gosym (witness-validated), z3.",
 }
+
+# ------------------------------------------------------------------------------------------- C18
+c18 = "vh/c18."
+PROPS["C18"] = {
+    "patterns": ["./c18"],
+    "level": "model_checking",
+    "quick": [
+        J(c18 + "Knapsack", n=3, maxw=6, maxv=9, maxW=5),
+        J(c18 + "Knapsack", n=2, maxw=6, maxv=9, maxW=5, breaker=1),
+        J(c18 + "Knapsack", n=0), J(c18 + "Knapsack", n=1),
+        J(c18 + "SubsetSum", n=3, maxv=6, maxM=8, map_order="insertion", covers=["overflow entry"]),
+        J(c18 + "SubsetSum", n=2, maxv=6, maxM=8, map_order="two", covers=["overflow entry"]),
+        J(c18 + "SubsetSum", n=2, maxv=6, maxM=8, breaker=1, map_order="insertion"),
+        J(c18 + "SubsetSum", n=0),
+        J(c18 + "Cliques", n=4, map_order="two"),
+        J(c18 + "Cliques", n=1),
+    ],
+    "thorough": [
+        J(c18 + "Knapsack", n=4, maxw=6, maxv=9, maxW=6, cfg={"MaxPaths": 60000000}),
+        J(c18 + "Knapsack", n=3, maxw=6, maxv=9, maxW=5, breaker=1),
+        J(c18 + "SubsetSum", n=4, maxv=5, maxM=8, map_order="insertion", covers=["overflow entry"], cfg={"MaxPaths": 60000000}),
+        J(c18 + "SubsetSum", n=3, maxv=6, maxM=8, map_order="two", covers=["overflow entry"], cfg={"MaxPaths": 60000000}),
+        J(c18 + "SubsetSum", n=2, maxv=6, maxM=8, map_order="rotations", covers=["overflow entry"]),
+        J(c18 + "Cliques", n=5, map_order="two", cfg={"MaxPaths": 60000000}),
+        J(c18 + "Cliques", n=3, map_order="rotations"),
+    ],
+    "bounds": {"quick": "Knapsack: 0..3 items with symbolic weights 0..6 and values 1..9, limit symbolic 0..5 (items heavier than the limit, equal weights/values, empty input), optional arbitrary tie-breaker; FindDpSolvers/Best/BestAllowMinOverflow: 0..3 items with symbolic values 1..6, limit symbolic 0..8, overflow allowed or not, optional arbitrary tie-breaker, map iteration forward (3 items) and forward/reversed (2 items); GetMaximalCliques: all undirected simple graphs on 1..4 vertices (each edge a symbolic boolean), node-map iteration forward and reversed; all compared with brute force over all subsets evaluated branch-free",
+               "thorough": "4 items, 5 vertices, every rotation of the map iteration order for the small cases"},
+    "outside": ["more items / vertices", "directed or self-loop graphs", "map iteration orders other than those enumerated (Go promises none; forward, reversed and rotations are explored)"],
+    "assumptions": ["weights non-negative and values positive as in the property", "the tie-breaker is an arbitrary function of the candidate lengths (uninterpreted)"],
+    "level_text": "Bounded symbolic model checking of the DP solvers against brute-force enumeration of all 2^n selections written as branch-free terms: weights, values and limits are symbolic, so ties, items heavier than the limit and boundary totals are decided by the solver. For the clique enumeration nothing scalar remains symbolic after the edge choices: that part is an exhaustive enumeration of small graphs carried out by the engine's forking, and is labelled so.",
+    "level_note": "Trusted: go/ssa, gosym (witness-validated; Go map iteration order is modelled as forward/reversed/rotations of insertion order), z3.",
+}
